@@ -1,5 +1,6 @@
 import GmQuic.Lemmas.JsonEnvelope
 import GmQuic.Lemmas.Span
+import GmQuic.Lemmas.JsonFine
 import GmQuic.Gen.QSpans
 /-!
 # C20 — event logging is well-formed and purely observational (the proved part)
@@ -87,6 +88,20 @@ def knownAmbiguous : List String :=
 theorem qevent_untagged_unambiguous_except_known :
     (covered.all fun p => knownAmbiguous.contains p.1 || strict p.2) = true := by decide +kernel
 
+/-- covered types that contain an untagged enum two of whose alternatives can really accept a common value (a unit-variant
+name shared with / matched by another alternative, or a catch-all string): exactly the confirmed findings
+`roundtrip:untagged-ambiguous:*` (ConnectionState, ConnectionCloseErrorCode, TimeClockType, TimeEpoch) and what contains them. -/
+def knownOverlapping : List String :=
+  ["quic::connectivity::ConnectionState", "quic::connectivity::ConnectionStateUpdated", "quic::ConnectionCloseErrorCode",
+   "quic::QuicFrame", "quic::transport::FramesProcessed", "quic::recovery::PacketLost", "quic::recovery::MarkedForRetransmit",
+   "TimeClockType", "TimeEpoch", "legacy::quic::ConnectionCloseErrorCode", "legacy::quic::QuicFrame",
+   "legacy::quic::RecoveryMarkedForRetransmit", "legacy::quic::RecoveryPacketLost", "legacy::quic::TransportFramesProcessed",
+   "quic::transport::PacketSent", "quic::transport::PacketReceived", "EventData", "Event",
+   "legacy::quic::TransportPacketReceived", "legacy::quic::TransportPacketSent"]
+
+theorem qevent_untagged_languages_disjoint_except_known :
+    (covered.all fun p => knownOverlapping.contains p.1 || fine p.2) = true := by decide +kernel
+
 /-- every covered qevent type whose schema is well formed round-trips (all values of the type, canonical on untagged) -/
 theorem qevent_roundtrip_partial (name : String) (s : Schema) (_hc : (name, s) ∈ covered) (hw : wf s = true)
     (v : Val) (ht : hasType s v = true) : de s (ser s v) = some v := de_ser s v hw ht
@@ -162,6 +177,9 @@ def siteOk (site : String × String × List (String × String)) : Bool :=
     (match knownLoads.find? (fun p => p.1 == f.1) with
       | none => true
       | some p => (match p.2 with | .str => true | _ => false))
+
+/-- every `span!` site of the repo is inside the translated fragment (its field values are syntactically strings) -/
+theorem span_sites_all_covered : spanSitesUncovered.isEmpty = true := by decide
 
 theorem span_sites_ok : (spanSites.all siteOk) = true := by decide +kernel
 
